@@ -1,7 +1,9 @@
 (* C02 - formatting preserves the program: print then parse gives the same tree.
    Only property statements, witnesses and Print Assumptions. *)
 From Coq Require Import List ZArith NArith Bool String.
-From GrolModel Require Import Ast Lexer Parser Printer AstWf Frontend.
+From GrolGen Require Import Gen_Consts.
+From GrolModel Require Import Ast Lexer Parser Printer AstWf Frontend TokPrint.
+From GrolProofs Require Import Parser_mono Roundtrip_expr.
 Import ListNotations.
 
 Definition no_numbers : numconv := mkConv (fun _ => None) (fun _ => None).
@@ -48,5 +50,71 @@ Example C02_fixed_cases_roundtrip :
 }"]%string = true.
 Proof. vm_compute. reflexivity. Qed.
 
+
+(* ------------------------------------------------------------------------------------------------
+   POSITIVE part, proved without bound for the expression fragment of coq/model/TokPrint.v
+   (identifiers, integer literals, prefix operators, binary infix operators, any nesting):
+   the parser, run on the token sequence body(e) - the tokens of the formatter's output for e, with
+   parentheses exactly where PrefixExpression/InfixExpression.PrettyPrint put them - returns exactly
+   the tree of e, with no error and no continuation request, whatever the layout flags of the tokens
+   (so in both print modes, which differ only in white space).  The recorded finding a + (b + c) is
+   excluded by wf_ex.  The tie between body(e) and the bytes the real formatter emits is checked on
+   every run (TL cases of the harness: lex(format(e)) = body(e) in both modes) and on the examples
+   below inside the model. *)
+Theorem C02_fragment_roundtrip : forall conv e pts,
+  wf_ex conv e = true -> map pk pts = body e ->
+  exists f0, forall fuel, (f0 <= fuel)%nat ->
+    parse_program conv fuel token_EOF pts = POk (mkPres [Some (to_node e)] [] false true).
+Proof. exact fragment_program_roundtrip. Qed.
+
+(* the same inside any context: parseExpression at level p, on the tokens printed for e in a context
+   of precedence c, behaves as the expression loop entered with left = e after the last of them *)
+Theorem C02_fragment_expression_in_context : forall conv e, wf_ex conv e = true -> ToksOk conv e.
+Proof. exact toks_ok. Qed.
+
+(* the result of the parser model does not depend on the fuel once there is enough *)
+Theorem C02_parse_fuel_independent : forall conv f f' end_type toks r,
+  (f <= f')%nat -> parse_program conv f end_type toks = POk r -> parse_program conv f' end_type toks = POk r.
+Proof. exact parse_program_fuel_monotone. Qed.
+
+(* non-vacuity and the link to the byte-level printer, by computation inside the model: for these
+   sources the parsed tree is in the fragment, wf_ex holds, and lexing the printed text (both modes)
+   gives exactly body(e) *)
+Fixpoint toks_eqb (a b : list tok) : bool :=
+  match a, b with
+  | [], [] => true
+  | x :: a', y :: b' => tok_eqb x y && toks_eqb a' b'
+  | _, _ => false
+  end.
+Definition link_ok (s : string) : bool :=
+  match front_parse no_numbers false (src s) with
+  | POk r =>
+    match pr_tree r with
+    | [Some n] =>
+      match of_node n with
+      | Some e =>
+        wf_ex no_numbers e &&
+        forallb (fun compact =>
+          match print_program compact false (pr_tree r) with
+          | Some txt => toks_eqb (removelast (map pk (front_tokens false txt))) (body e)
+          | None => false
+          end) [false; true]
+      | None => false
+      end
+    | _ => false
+    end
+  | _ => false
+  end.
+Example C02_fragment_link_examples :
+  forallb link_ok ["a"; "-a"; "-(-a)"; "a-(b-c)"; "(a-b)-c"; "a*(b+c)"; "-(a+b)*c - d"; "!(a&&b)||c"; "a=(b=c)"; "a=b=c";
+                   "a - -b"; "a + ++b"; "~(a|b)^c"; "a<(b<c)"; "a+(b*c)+d"; "((a))"; "a:b"; "(a+b)+c"]%string = true.
+Proof. vm_compute. reflexivity. Qed.
+(* and a + (b + c) is outside the fragment (the recorded finding) *)
+Example C02_fragment_excludes_plus_in_plus : link_ok "a+(b+c)" = false.
+Proof. vm_compute. reflexivity. Qed.
+
+Print Assumptions C02_fragment_roundtrip.
+Print Assumptions C02_fragment_expression_in_context.
+Print Assumptions C02_parse_fuel_independent.
 Print Assumptions C02_refuted.
 Print Assumptions C02_refuted_plus_in_plus.
